@@ -400,6 +400,9 @@ pub mod body {
         /// http_body_util::Full or an h2 body whose last DATA frame carried END_STREAM answer),
         /// instead of the trait's default `false`
         eager_eos: bool,
+        /// at least one frame has been handed out (an accurate body that is empty from the start
+        /// is swapped for an empty body by tonic before anyone polls it: not what is exercised here)
+        started: bool,
     }
     static EAGER_EOS: std::sync::atomic::AtomicBool = std::sync::atomic::AtomicBool::new(false);
     /// bodies created from now on report `is_end_stream()` accurately (true) / by default (false);
@@ -411,7 +414,7 @@ pub mod body {
         pub fn new(evs: Vec<Ev<E>>) -> (Self, Arc<AtomicUsize>) {
             let c = Arc::new(AtomicUsize::new(0));
             (
-                ScriptBody { evs: evs.into(), polls_after_end: c.clone(), ended: false, eager_eos: EAGER_EOS.load(Ordering::SeqCst) },
+                ScriptBody { evs: evs.into(), polls_after_end: c.clone(), ended: false, eager_eos: EAGER_EOS.load(Ordering::SeqCst), started: false },
                 c,
             )
         }
@@ -424,7 +427,11 @@ pub mod body {
             mut self: Pin<&mut Self>,
             cx: &mut Context<'_>,
         ) -> Poll<Option<Result<Frame<Bytes>, E>>> {
-            match self.evs.pop_front() {
+            let ev = self.evs.pop_front();
+            if matches!(ev, Some(Ev::Data(_)) | Some(Ev::Trailers(_)) | Some(Ev::Err(_))) {
+                self.started = true;
+            }
+            match ev {
                 Some(Ev::Pending) => {
                     cx.waker().wake_by_ref();
                     Poll::Pending
@@ -442,7 +449,7 @@ pub mod body {
             }
         }
         fn is_end_stream(&self) -> bool {
-            self.eager_eos && self.evs.is_empty()
+            self.eager_eos && self.started && self.evs.is_empty()
         }
     }
 
